@@ -505,7 +505,7 @@ def run(tier, seed):
     ref_tokens = [(oracles.tname(tt), v) for tt, v in lexer.tokenize('select foo from bar map limit')]
     # ---- init race
     race = {}
-    plan = [(2, 2, 'line'), (3, 1, 'line'), (2, 1, 'opcode')] if tier == 'quick' else \
+    plan = [(2, 3, 'line'), (3, 1, 'line'), (2, 1, 'opcode')] if tier == 'quick' else \
            [(2, 3, 'line'), (3, 2, 'line'), (2, 2, 'opcode'), (3, 1, 'opcode')]
     for nt, bd, gr in plan:
         st, v = init_race(nt, bd, gr, ref_tokens, split=True)
